@@ -1322,6 +1322,111 @@ fn values_custom_codecs(st: &mut Stats, cw: &mut CaseWriter, rng: &mut Rng) {
     }
 }
 
+// ---------------------------------------------------------------------------------------------
+// 16-bit offset boundary: for each table family with variable-size children behind Offset16, sweep the
+// size of a filler child one element at a time across the window in which the NEXT child's offset passes
+// 65536 (65520 … 65550 whatever the family's header size).  Whenever dump_table says Ok the value must read
+// back equal (a mis-written offset — truncated, wrapped to 0 = null — shows as a difference); beyond the
+// limit the packer must either reorder or refuse (PackingFailed), never emit a wrong table.
+// ---------------------------------------------------------------------------------------------
+fn sweep<T>(st: &mut Stats, family: &str, mk: &dyn Fn(usize) -> T, lo: usize, hi: usize)
+where
+    T: FontWrite + Validate + PartialEq + Debug + for<'a> FontRead<'a>,
+{
+    let (mut n_ok, mut n_pack, mut last_ok_len, mut first_pack) = (0u64, 0u64, 0usize, 0usize);
+    for n in lo..=hi {
+        let v = mk(n);
+        let (r, b) = rt_core(&v, &|b: &[u8]| T::read(FontData::new(b)).map_err(|e| e.to_string()));
+        match &r {
+            Rt::Ok => {
+                n_ok += 1;
+                last_ok_len = b.as_ref().map(|b| b.len()).unwrap_or(0);
+                st.evaluations += 1;
+                st.count("boundary.ok");
+                st.nontrivial(&format!("boundary:{}:n{}", family, n));
+            }
+            Rt::PackFail(_) => {
+                n_pack += 1;
+                if first_pack == 0 {
+                    first_pack = n;
+                }
+                st.evaluations += 1;
+                st.count("boundary.packfail");
+            }
+            _ => record(st, "boundary", format!("boundary:{}:filler{}", family, n), &r, b.map(|b| b.len()).unwrap_or(0)),
+        }
+    }
+    let list = st.v.entry("offset16_boundary_sweeps").or_insert_with(|| json!([]));
+    if let Some(a) = list.as_array_mut() {
+        a.push(json!({"family": family, "filler_range": [lo, hi], "ok": n_ok, "packing_failed": n_pack, "largest_ok_table_bytes": last_ok_len, "first_refused_filler": first_pack}));
+    }
+}
+
+fn values_offset16_boundaries(st: &mut Stats) {
+    use wt::gsub::*;
+    use wt::layout::*;
+    let g = |n: usize| -> Vec<GlyphId16> { (0..n).map(|i| gid((i % 60_000) as u16)).collect() };
+    let cov2 = || CoverageTable::format_1(vec![gid(1), gid(2)]);
+    let (lo, hi) = (32_768 - 26, 32_768 + 6);
+    // GSUB type 2 / 3: sequences / alternate sets, big child first and big child second
+    sweep(st, "MultipleSubstFormat1:big-first", &|n| MultipleSubstFormat1::new(cov2(), vec![Sequence::new(g(n)), Sequence::new(vec![gid(7), gid(8)])]), lo, hi);
+    sweep(st, "MultipleSubstFormat1:big-second", &|n| MultipleSubstFormat1::new(cov2(), vec![Sequence::new(vec![gid(7), gid(8)]), Sequence::new(g(n))]), lo, hi);
+    sweep(st, "MultipleSubstFormat1:three", &|n| MultipleSubstFormat1::new(CoverageTable::format_1(vec![gid(1), gid(2), gid(3)]), vec![Sequence::new(vec![gid(9)]), Sequence::new(g(n)), Sequence::new(vec![gid(7), gid(8), gid(9)])]), lo, hi);
+    sweep(st, "AlternateSubstFormat1:big-first", &|n| AlternateSubstFormat1::new(cov2(), vec![AlternateSet::new(g(n)), AlternateSet::new(vec![gid(7), gid(8)])]), lo, hi);
+    sweep(st, "AlternateSubstFormat1:big-second", &|n| AlternateSubstFormat1::new(cov2(), vec![AlternateSet::new(vec![gid(7)]), AlternateSet::new(g(n))]), lo, hi);
+    // GSUB type 4: ligatures behind a ligature set; and ligature sets behind the subtable
+    sweep(st, "LigatureSet:big-first", &|n| LigatureSet::new(vec![Ligature::new(gid(40), g(n)), Ligature::new(gid(41), vec![gid(5), gid(6)])]), lo, hi);
+    sweep(st, "LigatureSubstFormat1:big-set-first", &|n| LigatureSubstFormat1::new(cov2(), vec![LigatureSet::new(vec![Ligature::new(gid(40), g(n))]), LigatureSet::new(vec![Ligature::new(gid(41), vec![gid(5)])])]), lo, hi);
+    // coverage / class def children behind a big inline array or a big sibling
+    sweep(st, "SingleSubstFormat2:coverage-after-big-parent", &|n| SingleSubstFormat2::new(CoverageTable::format_1(g(3)), g(n)), lo, hi);
+    sweep(st, "SequenceContextFormat2:big-classdef", &|n| SequenceContextFormat2::new(cov2(), ClassDef::format_1(gid(1), (0..n).map(|i| (i % 3) as u16).collect()), vec![None, Some(ClassSequenceRuleSet::new(vec![ClassSequenceRule::new(vec![1, 2], vec![SequenceLookupRecord::new(0, 1)])]))]), lo, hi);
+    sweep(st, "SequenceContextFormat2:big-coverage", &|n| SequenceContextFormat2::new(CoverageTable::format_1(g(n)), ClassDef::format_1(gid(1), vec![1, 2]), vec![Some(ClassSequenceRuleSet::new(vec![ClassSequenceRule::new(vec![1], vec![])]))]), lo, hi);
+    {
+        use wt::gpos::*;
+        let xa = |v: i16| ValueRecord::new().with_x_advance(v).with_explicit_value_format(ValueFormat::X_ADVANCE);
+        let e = || ValueRecord::new().with_explicit_value_format(ValueFormat::empty());
+        sweep(st, "PairPosFormat2:big-classdef1", &|n| PairPosFormat2::new(cov2(), ClassDef::format_1(gid(1), (0..n).map(|i| (i % 2) as u16).collect()), ClassDef::format_1(gid(30), vec![1]), vec![Class1Record::new(vec![Class2Record::new(xa(1), e()), Class2Record::new(xa(2), e())]), Class1Record::new(vec![Class2Record::new(xa(3), e()), Class2Record::new(xa(4), e())])]), lo, hi);
+        sweep(st, "MarkArray:anchors-after-big-sibling", &|n| MarkBasePosFormat1::new(CoverageTable::format_1(g(n)), CoverageTable::format_1(vec![gid(50)]), MarkArray::new(vec![MarkRecord::new(0, AnchorTable::format_1(1, 2))]), BaseArray::new(vec![BaseRecord::new(vec![Some(AnchorTable::format_2(3, 4, 5))])])), lo, hi);
+    }
+    // GDEF attach list, script / lang sys, feature / lookup lists
+    {
+        use wt::gdef::*;
+        sweep(st, "AttachList:big-first", &|n| AttachList::new(cov2(), vec![AttachPoint::new((0..n).map(|i| (i % 999) as u16).collect()), AttachPoint::new(vec![1, 2, 3])]), lo, hi);
+        sweep(st, "AttachList:big-second", &|n| AttachList::new(cov2(), vec![AttachPoint::new(vec![1, 2, 3]), AttachPoint::new((0..n).map(|i| (i % 999) as u16).collect())]), lo, hi);
+        sweep(st, "LigCaretList:big-lig-glyph", &|n| LigCaretList::new(cov2(), vec![LigGlyph::new(vec![CaretValue::format_1(5)]), LigGlyph::new((0..(n / 2)).map(|_| CaretValue::format_1(7)).collect())]), 2 * lo - 60, 2 * lo - 60 + 1);
+    }
+    sweep(st, "Script:big-default-langsys", &|n| Script::new(Some(LangSys::new((0..n).map(|i| (i % 500) as u16).collect())), vec![LangSysRecord::new(Tag::new(b"TRK "), LangSys::new(vec![1, 2]))]), lo, hi);
+    sweep(st, "ScriptList:big-script-first", &|n| ScriptList::new(vec![ScriptRecord::new(Tag::new(b"DFLT"), Script::new(Some(LangSys::new((0..n).map(|i| (i % 500) as u16).collect())), vec![])), ScriptRecord::new(Tag::new(b"latn"), Script::new(Some(LangSys::new(vec![3])), vec![]))]), lo, hi);
+    sweep(st, "FeatureList:big-feature-first", &|n| FeatureList::new(vec![FeatureRecord::new(Tag::new(b"aalt"), Feature::new(None, (0..n).map(|i| (i % 100) as u16).collect())), FeatureRecord::new(Tag::new(b"liga"), Feature::new(None, vec![0, 1]))]), lo, hi);
+    // name: string storage offsets are 16-bit and relative to the storage area; Mac Roman strings are one byte
+    // per character, so both parities of the boundary are reached
+    {
+        use wt::name::*;
+        let rec = |pid: u16, eid: u16, lid: u16, nid: u16, s: String| NameRecord::new(pid, eid, lid, NameId::new(nid), s.into());
+        // two filler strings of about 32 KB each, so that the THIRD string's storage offset passes 65536 while
+        // every single string stays below the 65535-byte limit of a name record's length field
+        sweep(st, "Name:mac-string-storage", &|n| {
+            let mut t = Name::default();
+            t.name_record = vec![rec(1, 0, 0, 1, "x".repeat(32_768)), rec(1, 0, 0, 2, "z".repeat(n)), rec(1, 0, 0, 3, "third!".to_string()), rec(1, 0, 0, 4, "4th".to_string())];
+            t
+        }, 32_768 - 20, 32_768 + 4);
+        sweep(st, "Name:utf16-string-storage", &|n| {
+            let mut t = Name::default();
+            t.name_record = vec![rec(3, 1, 0x409, 1, "y".repeat(16_384)), rec(3, 1, 0x409, 2, "w".repeat(n)), rec(3, 1, 0x409, 3, "third!".to_string()), rec(3, 1, 0x409, 4, "4th".to_string())];
+            t
+        }, 16_384 - 12, 16_384 + 3);
+        // a single string whose encoded form does not fit the 16-bit length field: validates, then the
+        // writer panics instead of returning an error (finding; one stable key for both encodings)
+        for (enc, r) in [("mac", rec(1, 0, 0, 1, "x".repeat(65_536))), ("utf16", rec(3, 1, 0x409, 1, "y".repeat(32_768)))] {
+            let mut t = Name::default();
+            t.name_record = vec![r];
+            let (rr, b) = rt_core(&t, &|b: &[u8]| Name::read(FontData::new(b)).map_err(|e| e.to_string()));
+            let key = if matches!(rr, Rt::Panic(_)) { "name:string-over-65535-bytes-panics".to_string() } else { format!("value:Name:64k-string:{}", enc) };
+            record(st, "value", key, &rr, b.map(|b| b.len()).unwrap_or(0));
+        }
+    }
+}
+
 fn values_misc(st: &mut Stats, rng: &mut Rng) {
     // maxp 0.5 / 1.0
     {
@@ -1843,6 +1948,7 @@ fn main() {
     values_devices(&mut st, &mut rng);
     values_distinct_fields(&mut st);
     values_offset_shapes_and_big_counts(&mut st);
+    values_offset16_boundaries(&mut st);
     shards(&mut st, &mut cw, &mut rng, thorough);
     values_custom_codecs(&mut st, &mut cw, &mut rng);
     let shards = cw.finish();
